@@ -18,8 +18,8 @@ Definition hdr_out_at (data m2m : list Z) (A : Z) (upper : bool) (bs j : Z) (fd 
   mkho (hdr_ivs m2m bs j)
        ((1 - g) * inject_Z (hdr_S data m2m j) / inject_Z j + g * inject_Z (hdr_low data m2m upper j))%Q.
 
-(* the first cut, among those the loop looks at (j = 1 and every j whose sample differs from the
-   previous one: `lowest_sample_seen`), that holds the fraction *)
+(* the first cut, among those the loop looks at (every j whose sample differs from the previous
+   one: `lowest_sample_seen`), that holds the fraction *)
 Fixpoint hdr_first (data m2m : list Z) (A : Z) (upper : bool) (js : list Z) (lowest : option Z) (f : Q)
   : option Z :=
   match js with
@@ -45,7 +45,8 @@ Definition hdr_res (data m2m : list Z) (A : Z) (upper : bool) (bs : Z) (js : lis
 
 (* the result for one fraction *)
 Definition hdr_one (data : list Z) (f : Q) (upper : bool) (bs : Z) : hdr_out :=
-  match hdr_res data (rev (argsort data)) (zsum data) upper bs (zseqn 1 (length data - 1)) None f with
+  match hdr_res data (rev (argsort data)) (zsum data) upper bs (zseqn 1 (length data - 1))
+                (Some (zget data (zget (rev (argsort data)) 0))) f with
   | Some o => o
   | None => hdr_rest data f
   end.
@@ -91,7 +92,3 @@ Definition hdr_level_result (data : list Z) (f : Q) (o : hdr_out) : Prop :=
     (forall L', L < L' -> (inject_Z (level_area data L') < F)%Q) /\
     (ho_amp o * inject_Z (level_count data L) == inject_Z (level_area data L) - F)%Q /\
     hdr_intervals_are o (fun i => 0 <= i < zlen data /\ L <= zget data i).
-
-(* the largest sample is unique, or no single sample holds the fraction *)
-Definition no_top_tie (data : list Z) (f : Q) : Prop :=
-  top_unique data \/ forall i, (inject_Z (zget data i) < f * inject_Z (zsum data))%Q.
